@@ -33,9 +33,10 @@ RULE += ' ' + "Sequences on an Index obtained from a FanoutCache / DjangoCache a
 RULE += ' ' + "The parent's calls include looking the same name up again; in 40 % of the runs with a parent the name holds ':' '*' '?' '|' '/' and sibling objects under colliding spellings hold marker items."
 RULE += ' ' + "A pass over items() / values() is interrupted by another handle replacing the last key's value with one kept in a file."
 RULE += ' ' + 'update() sources include an object with keys() and __getitem__ that is no Mapping.'
+RULE += ' ' + 'Views of keys / values / items are kept across later insertions and removals.'
 ASSUMPTIONS = ['Index.setdefault is checked as the documented get/add loop (insert attempts + final lookup), not as one indivisible step',
                'key alphabet avoids pairs that Python treats as equal but diskcache documents as distinct (True/1, 2**63/2.0**63)']
-PROBES = ('fifo_churn', 'own_temporary_directory', 'lifecycle', 'from_fanout', 'from_django', 'parent_calls', 'named_with_special_characters', 'pass_overlaps_replacement', 'lock_wait', 'file_backed_replace')
+PROBES = ('fifo_churn', 'own_temporary_directory', 'lifecycle', 'from_fanout', 'from_django', 'parent_calls', 'named_with_special_characters', 'pass_overlaps_replacement', 'view_kept_across_changes', 'lock_wait', 'file_backed_replace')
 TECHNIQUE = 'deterministic simulation + differential testing against collections.OrderedDict; seeded schedules + linearizability (no miss tolerance) for concurrent use'
 LEVEL_TEXT = ('seeded exploration of mapping-call sequences with lifecycle events against OrderedDict, and of 2-3 client '
               'interleavings decided by a linearizability search in which a lookup of a continuously present key may never miss.')
@@ -116,8 +117,10 @@ def gen_case(seed, tier):
                                                     'shorter-index', 'longer-index', 'changed-dict'))}
         elif r < 0.88:
             op = {'op': 'clear'}
-        elif r < 0.92:
+        elif r < 0.905:
             op = {'op': 'peekitem', 'last': rng.random() < 0.5}
+        elif r < 0.92:
+            op = {'op': 'view_kept', 'what': rng.choice(('keys', 'keys', 'values', 'items'))}
         elif r < 0.925:
             op = {'op': 'iter_replace', 'what': rng.choice(('items', 'values'))}
         elif r < 0.935:
@@ -360,6 +363,26 @@ def run_seq(case):
                 parent_call(parent, op['call'], subname)
                 probes['parent_calls'] = probes.get('parent_calls', 0) + 1
                 got = want = None
+            elif name == 'view_kept':
+                # a view object obtained BEFORE later insertions and removals shows the mapping as it is when it is asked
+                views = (ix.keys(), ref.keys()) if op['what'] == 'keys' else ((ix.values(), ref.values()) if op['what'] == 'values' else (ix.items(), ref.items()))
+                probe = 'view-kept-%d' % idx
+                ix[probe] = 1
+                ref[HKey(probe)] = 1
+                if len(ref) > 1:
+                    first = next(iter(ref))
+                    del ix[first.key]
+                    del ref[first]
+                a, b = views
+                if op['what'] == 'keys':
+                    got = ('ok', fp([len(a), probe in a, [fp(k) for k in a]]))
+                    want = ('ok', fp([len(b), HKey(probe) in b, [fp(k.key) for k in b]]))
+                elif op['what'] == 'values':
+                    got, want = ('ok', fp([len(a), [fp(v) for v in a]])), ('ok', fp([len(b), [fp(v) for v in b]]))
+                else:
+                    got = ('ok', fp([len(a), [(fp(k), fp(v)) for k, v in a]]))
+                    want = ('ok', fp([len(b), [(fp(k.key), fp(v)) for k, v in b]]))
+                probes['view_kept_across_changes'] = probes.get('view_kept_across_changes', 0) + 1
             elif name == 'iter_replace':
                 # a pass over items() / values() is under way when another handle replaces the value of a key the pass has
                 # not reached yet (by a value kept in a file): the key is there all along, so the pass yields it - with the
